@@ -1,18 +1,30 @@
 """
 C01 — decoding yields exactly the values FM-94 assigns to the bit stream.
 
-Theorems: lean/BufrModel/Props/C01*.lean.
-Tie: (a) corpus: every sampled file of tests/data and tests/benchmark_data is decoded by the
-implementation and by the model (with the table group the implementation selected streamed to the
-driver); (b) generated: templates from the grammar of harness/coder_io.py (elements, sequences, nested
-fixed / delayed replication, operators 201-208, 221, bitmap constructs 222-225/232/235-237), values
-from the model's generate mode, 1-4 subsets, compressed or not, editions 2-4; the message is encoded by
-the implementation AND re-assembled from the model encoder's bits, and each is decoded by both sides.
+Theorems: lean/BufrModel/Props/C01*.lean (C01.lean: one field; C01Flat.lean: flat FM-94 reading = build-then-walk;
+C01Tables.lean: the result depends on the tables only through the definitions of the reachable descriptors).
+Tie, all on ONE aged, re-used implementation Decoder per option set (harness/objs.py):
+ (a) corpus: every sampled file of tests/data and tests/benchmark_data is decoded by the implementation and by the model
+     over the table group that SECTION 1 names (worked out by the harness, tables_io.expected_sn; the group the decoder
+     reports must be that one);
+ (b) grammar: templates from the grammar of harness/coder_io.py over the default table group (elements, sequences, nested
+     fixed / delayed replication, operators 201-208, 221, bitmap constructs 222-225/232/235-237), values from the model's
+     generate mode, 1-4 subsets, compressed or not, editions 2-4; the message is encoded by the implementation AND
+     re-assembled from the model encoder's bits, and each is decoded by both sides;
+ (c) operator chains: 1-3 bit-map operators of all five kinds per template - define / recall (237000) / cancel (237255,
+     235000) / re-define without cancelling - from harness/c01gen.py and (a share) from the chain generator of
+     harness/props/c07.py (guarded import: names make_cases, FAMILIES), same pipeline as (b);
+ (d) table-version families (harness/c01gen.py): one descriptor list under 2-3 of the bundled table groups (every master
+     version and local table set found under pybufrkit/tables), templates preferring the ids whose definition differs between
+     the groups; per member the values, bits and message come from the model over the member's own tables; the members are
+     decoded by the same Decoder object one after the other, forwards then backwards, plain and with
+     compiled_template_cache_max; each decode is compared with the model over the member's own tables.
 Compared: labels, values (DESIGN 3.4 float rule), attribute links, error family.
 Oracle: by the C01 theorems the model's decode is the FM-94 value assignment, so a disagreement on a
 well-formed input is the failing input.
 """
 import json
+import os
 import time
 
 from harness import core, tables_io
@@ -28,8 +40,12 @@ META = dict(
     claimed=True,
     text='Kernel-checked theorems about the Lean model of the template walk and the decoder primitives (value formula '
          '(raw+ref)/10^scale under 201/202/203/207, missing iff all ones and width>1, unsigned code/flag/associated/skipped '
-         'fields, bytes for character fields, labels; frame lemma) for all templates and bit strings, plus model-vs-'
-         'implementation correspondence on the corpus and on generated messages of every construct the walk knows.',
+         'fields, bytes for character fields, labels; frame lemma; flat FM-94 reading = build-then-walk; the decode result depends '
+         'on the table group only through the entries reachable from the descriptor list) for all templates and bit strings, plus '
+         'model-vs-implementation correspondence, on one re-used Decoder object, on the corpus (tables taken from section 1), on '
+         'generated messages of every construct the walk knows incl. chains of bit-map operators (define / recall / cancel / '
+         're-define), and on families of one descriptor list under 2-3 of the bundled master/local table versions decoded '
+         'consecutively in both orders (plain and compiled).',
     technique='Lean 4 theorems (structural induction over the template tree, bit arithmetic) + checked model/implementation correspondence',
     note='The model mirrors coder.py/decoder.py register by register; IEEE doubles are replaced by exact decimals and tied by a 2-ulp comparison.',
 )
@@ -142,6 +158,8 @@ def c07_chain_cases(ctx, drv, treq, rng, count):
     name only; when the generator is not there (or no longer callable this way) the caller generates more chains
     of its own instead."""
     try:
+        if os.environ.get('VERIF_C01_NO_C07'):      # self-test switch: the check must not depend on the other generator
+            raise ImportError('switched off by VERIF_C01_NO_C07')
         from harness.props import c07
         make, fams = c07.make_cases, tuple(c07.FAMILIES)
     except Exception as e:  # noqa
@@ -337,7 +355,6 @@ def run(ctx):
 
 def replay_family(ctx, rep):
     """the recorded sequence on one re-used Decoder object, then the failing message alone on a new object"""
-    import os
     drv = ctx.driver
     u = G.universe()
     seq = rep['sequence']
